@@ -52,6 +52,7 @@ func (s *Session) snap() *snapshot {
 
 func (s *Session) restore(sn *snapshot) {
 	s.facts = s.facts[:sn.nfacts]
+	s.factBlk = s.factBlk[:sn.nfacts]
 	s.obls = s.obls[:sn.nobls]
 	s.decls = s.decls[:sn.ndecls]
 	s.nfresh = sn.nfresh
@@ -96,6 +97,7 @@ func (f *Frame) modifiedKeys(li *loopInfo, st *BState) (keys []string, sorts map
 		savedDone[k] = v
 	}
 	savedDry, savedHdr, savedState, savedCur, savedBlk := f.dry, f.dryHeader, f.dryState, f.cur, f.curBlock
+	savedBlk2 := s.curBlk
 	savedRets := len(f.rets)
 	savedPE := len(f.panicEdge)
 	f.dry = true
@@ -115,6 +117,7 @@ func (f *Frame) modifiedKeys(li *loopInfo, st *BState) (keys []string, sorts map
 			if r := recover(); r != nil {
 				// restore before re-panicking
 				f.dry, f.dryHeader, f.dryState, f.cur, f.curBlock = savedDry, savedHdr, savedState, savedCur, savedBlk
+				s.curBlk = savedBlk2
 				s.restore(sn)
 				panic(r)
 			}
@@ -147,6 +150,7 @@ func (f *Frame) modifiedKeys(li *loopInfo, st *BState) (keys []string, sorts map
 	f.rets = f.rets[:savedRets]
 	f.panicEdge = f.panicEdge[:savedPE]
 	f.dry, f.dryHeader, f.dryState, f.cur, f.curBlock = savedDry, savedHdr, savedState, savedCur, savedBlk
+	s.curBlk = savedBlk2
 	s.restore(sn)
 	return keys, sorts
 }
@@ -327,6 +331,8 @@ func (f *Frame) enterLoop(li *loopInfo) *BState {
 			break
 		}
 		f.vals[phi] = f.havocLike(phi, st0)
+		// whatever the loop carries refers to memory that has been allocated by now
+		f.s.fact(f.refsBelow(f.vals[phi], s.hget(heap, "$alloc", "Int")))
 	}
 	st := &BState{st0.reach, heap}
 	li.hdrHeap = heap.clone()
@@ -335,7 +341,9 @@ func (f *Frame) enterLoop(li *loopInfo) *BState {
 		f.addIterNames(env, li, heap)
 		li.hdrVals = env
 		for _, cl := range li.lc.Invariants {
+			f.hypMode = true
 			t := f.safeEval(cl, heap, env)
+			f.hypMode = false
 			s.fact(implies(st.reach, t))
 		}
 		if !f.dry {
@@ -425,4 +433,31 @@ func (s *Session) frameAxiom(key, srt, nw, old, limit string, mods map[string][]
 	}
 	cond := and(append([]string{app("<", "r", limit)}, except...)...)
 	return fmt.Sprintf("(forall ((r Int)) (! (=> %s (= (select %s r) (select %s r))) :pattern ((select %s r))))", cond, nw, old, nw)
+}
+
+// refsBelow: every reference held in v points below the allocation counter.
+func (f *Frame) refsBelow(v Val, alloc string) string {
+	switch x := v.(type) {
+	case S:
+		switch sortOfType(x.Ty) {
+		case "Slice":
+			return app("<", sliceField("s.ref", x.T), alloc)
+		case "Any":
+			return implies(app("is_ptr_tag", x.T), app("<", anyField("a.i", x.T), alloc))
+		case "Int":
+			switch x.Ty.Underlying().(type) {
+			case *types.Pointer, *types.Map, *types.Chan:
+				return app("<", x.T, alloc)
+			}
+		}
+	case StructV:
+		var cs []string
+		for _, c := range x.F {
+			cs = append(cs, f.refsBelow(c, alloc))
+		}
+		return and(cs...)
+	case Ptr:
+		return app("<", x.Ref, alloc)
+	}
+	return "true"
 }
